@@ -52,6 +52,19 @@ impl ErrVal for AlignedErr {
     }
 }
 
+#[repr(C, align(256))]
+pub struct Aligned256Err {
+    t: Tr<0>,
+}
+impl ErrVal for Aligned256Err {
+    fn new(id: u32) -> Self {
+        Aligned256Err { t: Tr::new(id, 0xE) }
+    }
+    fn id(&self) -> u32 {
+        self.t.id
+    }
+}
+
 pub fn bytes_of<T>(v: &[T]) -> Vec<u8> {
     let n = std::mem::size_of_val(v);
     unsafe { std::slice::from_raw_parts(v.as_ptr() as *const u8, n) }.to_vec()
@@ -545,10 +558,27 @@ impl<'s, const M: usize> Exec<'s, M> {
         let len = if (len as u128) * (esize as u128) < (1u128 << 36) { usize::MAX / esize + 2 } else { len };
         let cc0 = self.cc();
         let ran = Cell::new(false);
-        let init_ran = || {
+        let calls = Cell::new(0u32);
+        // a wrongly accepted count gets a few elements written before the fill is stopped, so
+        // that what the crate then does to its neighbours is seen by the live-block oracles too
+        let init_ran = || -> u64 {
             let _g = harness_scope();
             ran.set(true);
+            calls.set(calls.get() + 1);
+            if calls.get() <= 6 {
+                return 0xEEEE_EEEE_EEEE_EEEE;
+            }
             std::panic::resume_unwind(Box::new("<injected>"))
+        };
+        let init_try = || -> Result<u64, ()> {
+            let _g = harness_scope();
+            ran.set(true);
+            calls.set(calls.get() + 1);
+            if calls.get() <= 6 {
+                Ok(0xEEEE_EEEE_EEEE_EEEE)
+            } else {
+                Err(())
+            }
         };
         struct Claim<'a, F: Fn() -> u64>(usize, &'a F);
         impl<'a, F: Fn() -> u64> Iterator for Claim<'a, F> {
@@ -561,6 +591,17 @@ impl<'s, const M: usize> Exec<'s, M> {
             }
         }
         impl<'a, F: Fn() -> u64> ExactSizeIterator for Claim<'a, F> {}
+        struct TryClaim<'a, F: Fn() -> Result<u64, ()>>(usize, &'a F);
+        impl<'a, F: Fn() -> Result<u64, ()>> Iterator for TryClaim<'a, F> {
+            type Item = Result<u64, ()>;
+            fn next(&mut self) -> Option<Result<u64, ()>> {
+                Some((self.1)())
+            }
+            fn size_hint(&self) -> (usize, Option<usize>) {
+                (self.0, Some(self.0))
+            }
+        }
+        impl<'a, F: Fn() -> Result<u64, ()>> ExactSizeIterator for TryClaim<'a, F> {}
         let never = || -> u64 { init_ran() };
         let r: CallOut<Result<(usize, usize), ()>> = self.call(|b| match (entry, try_) {
             (0, true) => b.try_alloc_slice_fill_with::<u64, _>(len, |_| init_ran()).map(|s| (s.as_ptr() as usize, s.len())).map_err(|_| ()),
@@ -588,11 +629,11 @@ impl<'s, const M: usize> Exec<'s, M> {
                 let s = b.alloc_slice_fill_iter(Claim(len, &never));
                 Ok((s.as_ptr() as usize, s.len()))
             }
-            (5, _) => match b.alloc_slice_try_fill_with::<u64, _, ()>(len, |_| -> Result<u64, ()> { Ok(init_ran()) }) {
+            (5, _) => match b.alloc_slice_try_fill_with::<u64, _, ()>(len, |_| init_try()) {
                 Ok(s) => Ok((s.as_ptr() as usize, s.len())),
                 Err(()) => Ok((0, 0)),
             },
-            _ => match b.alloc_slice_try_fill_iter::<u64, _, ()>(Claim(len, &never).map(Ok::<u64, ()>)) {
+            _ => match b.alloc_slice_try_fill_iter::<u64, _, ()>(TryClaim(len, &init_try)) {
                 Ok(s) => Ok((s.as_ptr() as usize, s.len())),
                 Err(()) => Ok((0, 0)),
             },
@@ -600,6 +641,7 @@ impl<'s, const M: usize> Exec<'s, M> {
         self.stats.hit("huge_len_request");
         let (out, _res) = self.classify(try_, r);
         if ran.get() {
+            self.violate("C01", "block-smaller-than-requested", "initialiser-ran", format!("entry {} len {}: no memory of that size exists, yet elements were being written", entry, len));
             self.violate("C19", "impossible-size-accepted", "initialiser-ran", format!("entry {} len {}", entry, len));
             if entry >= 5 {
                 self.violate("C11", "initialiser-ran-without-space", "", format!("entry {} len {}", entry, len));
